@@ -25,7 +25,7 @@ func init() {
 			"R6":  "eligibility definition and active-count definition; the count starts at 0",
 			"R9":  "the open step initialises positions only on the first hand and rotates them exactly once on every later hand (shared with C05.R1)",
 			"R10": "the has-chips flag read by the big-blind scan is refreshed by every bankroll writer for the credited player, from the new bankroll (shared with C05.R4): a player who tops up between hands is not skipped",
-			"R8":  "waiting arc (dealer, bb) exclusive at both ends, also across the wrap (shared with C05.R5): the rotation re-evaluates non-active seats with it before choosing the next big blind",
+			"R8":  "waiting arc (dealer, bb) exclusive at both ends, also across the wrap (shared with C05.R5): the rotation re-evaluates non-active seats with it before choosing the next big blind — only them, all of them, on every rotation (shared with C05.R6)",
 			"R7":  "first positions: BB = chosen active seat; heads-up dealer = SB = the other active seat; otherwise SB = previous active seat of the new BB and dealer = previous active seat of the new SB; short deck dealer = chosen seat; success only after a dealer-seat store; a seat from a backwards search stored only when found; the heads-up search selects exactly the occupied, active seat that is not the big blind",
 		},
 		Assumptions: []string{"seat ids are 0..MaxSeat-1 (constructor)"},
@@ -298,6 +298,7 @@ func checkC04(c *Ctx) {
 	// ---------------- R8 the waiting arc the rotation re-evaluates is open at both ends
 	// (an arc that includes the big-blind seat makes the player due for the big blind wait)
 	checkWaitingArc(c, "R8", smT)
+	checkRotationWaitingFlags(c, "R8", smT)
 
 	// ---------------- R9 the rotation is driven once per hand by the open step
 	checkOpenRotation(c, "R9")
